@@ -318,6 +318,36 @@ def run(ctx):
                     ctx.bad('C09.7-header-data-kept', inst, 'on this way into start_fragment the header\'s atom_cache_data never reaches the message (no FragmentedMessage::new(.., atom_cache_data) and no `msg.atom_cache_data = ..` before the payload is added): '
                             'a header that arrives after one of its continuations loses its atom-cache section', ctx.where(SB, bb), key='PROV:%s::start_fragment:atom_cache_data-dropped' % FA)
 
+    # what "expired" means: strictly more time than the timeout has passed since the last fragment; never "expired by default"
+    ctx.rule('C09.4-expiry-predicate', 'is_expired compares the time since the last update with the timeout (elapsed > timeout, or now > last_update + timeout); where the deadline cannot be computed '
+             '(an overflowing "never" timeout) the answer is "not expired", not "expired"', floor=1)
+    for XB in bodies_of_fn(P, FM + '::is_expired'):
+        if XB.b['kind'] == 'Closure':
+            continue
+        all_bodies = bodies_of_fn(P, FM + '::is_expired')
+        calls = [(B_, bb, t) for B_ in all_bodies for bb, t in B_.calls()]
+        names = [(callee_of(t)[0] or '').rsplit('::', 1)[-1] for _, _, t in calls]
+        defaults_true = []
+        for B_, bb, t in calls:
+            nm = (callee_of(t)[0] or '').rsplit('::', 1)[-1]
+            if nm in ('unwrap_or', 'map_or', 'is_none_or', 'unwrap_or_else', 'map_or_else') and len(t['args']) > 1:
+                v = fold(B_.origin(t['args'][1]))
+                if v in (1, True):
+                    defaults_true.append((B_, bb, nm))
+            if nm == 'is_none_or':
+                defaults_true.append((B_, bb, nm))
+        direct = 'elapsed' in names and any(n in ('gt', 'ge') for n in names)
+        if defaults_true:
+            B_, bb, nm = defaults_true[0]
+            ctx.bad('C09.4-expiry-predicate', 'is_expired', 'when the deadline cannot be computed (%s with the default `true`) the sequence counts as expired: with an overflowing timeout ("never expire") every incomplete sequence is dropped by the next sweep'
+                    % nm, ctx.where(B_, bb), key='SHAPE:%s::is_expired:expired-by-default' % FM)
+        elif direct and 'ge' not in names:
+            ctx.ok('C09.4-expiry-predicate', 'is_expired', 'last_update.elapsed() > timeout', ctx.where(XB))
+        elif any(n in ('checked_add', 'checked_duration_since', 'saturating_duration_since', 'duration_since', 'elapsed') for n in names):
+            ctx.ok('C09.4-expiry-predicate', 'is_expired', 'deadline comparison with a "not expired" default (%s)' % sorted(set(names))[:6], ctx.where(XB))
+        else:
+            ctx.undecided('C09.4-expiry-predicate', 'is_expired', 'shape not recognised: %s' % sorted(set(names))[:8])
+
     # every way of constructing an assembler gives it a usable expiry time
     ctx.rule('C09.4-timeout-initialised', 'every constructor of FragmentAssembler (new, with_timeout, Default) sets fragment_timeout to the default constant or to the caller\'s value: '
              'a derived Default would make it Duration::ZERO, and the sweep the connection runs on every frame would drop each sequence before its second fragment', floor=2)
